@@ -245,6 +245,36 @@ reg("C31", sim(
     "all TIME choice vectors (5 x 3^4 per scenario); distinct = distinct trace hashes",
     "DESIGN.md §4 C31", floor=(300, 50)))
 
+reg("C26", sim(
+    "model_checking",
+    "Seven filter expressions (= and <= on an int32 and on a string member, boundary and negative parameters, empty string) x reliable / "
+    "best-effort x all 8 pass/fail patterns of three samples x 4 arrival groupings (three separate datagrams; all three DATA "
+    "submessages merged into one datagram; first two merged; last two merged — merging is done in flight from the real datagrams). "
+    "The reader on the content-filtered topic must present exactly the passing samples; an unfiltered control reader on the related "
+    "topic must present all three.",
+    "full enumeration of OP choice vectors (8 patterns x 4 groupings) per expression; distinct = distinct observation traces",
+    "DESIGN.md §4 C26", floor=(300, 50)))
+
+reg("C32", sim(
+    "model_checking",
+    "Three client tasks (a WaitSet waiter with 1-2 attached StatusConditions, a remote writer raising DataAvailable, a task enabling "
+    "the status through set_enabled_statuses after it changed) are interleaved with each other and with the DDS worker by the "
+    "harness scheduler: at every step with several ready tasks each of the first four may run next (SCHED choice points); all "
+    "vectors with ≤ 3 (4 thorough) deviations from FIFO. After settling: get_trigger_value is true while the enabled status is "
+    "unread, and wait() has returned a non-empty list.",
+    "all SCHED choice vectors with ≤ bound non-FIFO picks; distinct = distinct observation traces",
+    "DESIGN.md §4 C32", floor=(100, 5)))
+
+reg("C33", sim(
+    "model_checking",
+    "For each status-raising event on the subscriber side (new data, subscription matched, requested incompatible QoS, sample "
+    "rejected): all 8 combinations of listener presence at reader / subscriber / participant level x all 8 combinations of masks "
+    "enabling the status at those levels (x DataOnReaders enabled at the subscriber for the data event). Exactly one callback must "
+    "arrive, at the most specific level that has a listener whose mask enables the status; none if no level does; data is "
+    "signalled as data-on-readers at the subscriber when enabled there.",
+    "full enumeration of OP choice vectors (8 x 8 [x 2]) per event; distinct = distinct observation traces",
+    "DESIGN.md §4 C33", floor=(200, 50)))
+
 API_RULE = ("every operation history up to the stated depth over the stated alphabet (one OP choice point per step, all "
             "alternatives at every step = full enumeration, no deviation bound); each history is one execution against a real "
             "participant and its worker; every return value is compared with a reference contract model; distinct = distinct "
